@@ -49,6 +49,7 @@ func checkC04(p *Prog, r *Report) {
 	checkDoShutdown(p, r, rWg, a)
 	checkProxiesCancellable(p, r, rAnch, rSel, rGo)
 	checkEventSwitch(p, r, rEv)
+	checkListenersUnique(p, r, r.Rule("listeners-unique", "a listener is registered once however often it is added: the registry is a set, or the append is guarded by a test on the channel being added"))
 	checkEventsLossless(p, r, r.Rule("events-lossless", "an event is never dropped: every send of an Event blocks until taken (or the context ends)"))
 	/* "The listener presents itself as freshly started": the help which is
 	re-printed when a shell has gone reaches the operator — the server's
@@ -1029,5 +1030,79 @@ func checkHandlersStateless(p *Prog, r *Report, ru *Rule) {
 	}
 	if n < 3 {
 		ru.Unproven("handlers", token.NoPos, "%d calls of the broker's Connect* found in the handlers, 3 expected", n)
+	}
+}
+
+
+// checkListenersUnique: "exactly one connected / disconnected event" is per
+// listener.  A registry which is a map keyed by the listener cannot hold one
+// twice; a slice can, and then every event reaches that listener twice.  Where
+// the broker appends a listener to a slice field, the append stands below a
+// test which involves the channel being added.
+func checkListenersUnique(p *Prog, r *Report, ru *Rule) {
+	n := 0
+	for _, fn := range p.Funcs() {
+		if nil == fn.Pkg || !strings.HasSuffix(fn.Pkg.Pkg.Path(), "/"+iobPkg) {
+			continue
+		}
+		eachInstr(fn, func(i ssa.Instruction) {
+			st, ok := i.(*ssa.Store)
+			if !ok {
+				return
+			}
+			fv, _ := fieldAddrOf(st.Addr)
+			if nil == fv {
+				return
+			}
+			sl, ok := fv.Type().Underlying().(*types.Slice)
+			if !ok {
+				return
+			}
+			ch, ok := sl.Elem().Underlying().(*types.Chan)
+			if !ok || !strings.HasSuffix(ch.Elem().String(), iobPkg+".Event") {
+				return
+			}
+			app, ok := stripConv(st.Val, false).(*ssa.Call)
+			if !ok || "builtin.append" != calleeName(app.Common()) {
+				return
+			}
+			var added []ssa.Value
+			for _, e := range variadicElems(app.Common()) {
+				added = append(added, resolveCell(e))
+			}
+			if 0 == len(added) {
+				return
+			}
+			n++
+			k := fmt.Sprintf("%s:append-to-%s", fnName(fn), fv.Name())
+			guarded := false
+			for _, b := range fn.Blocks {
+				ifi := blockIf(b)
+				if nil == ifi {
+					continue
+				}
+				if !operandsReach(ifi.Cond, func(x ssa.Value) bool {
+					for _, a := range added {
+						if resolveCell(x) == a {
+							return true
+						}
+					}
+					return false
+				}) {
+					continue
+				}
+				if edgeDominates(ifi, 0, st) || edgeDominates(ifi, 1, st) {
+					guarded = true
+				}
+			}
+			if guarded {
+				ru.OK(k, posOf(st), "appended only below a test on the listener being added")
+			} else {
+				ru.Bad(k, posOf(st), "listeners are kept in a slice and appended without looking whether the channel is already there: a listener added twice gets every connected and disconnected event twice")
+			}
+		})
+	}
+	if 0 == n {
+		ru.OK("iobroker:listener-registry", token.NoPos, "no slice of listeners is appended to (the registry is a set)")
 	}
 }
